@@ -196,8 +196,11 @@ C03_StoredAsSent(s, r, o, A, c) ==
         [] r.kind = "putmut" -> <<MutTarget(r), r.seq>> \in SeqToSet(A.mut)
         \* ... next to the records of the other announcers of that info_hash: their number is what the store (one record per
         \* announcing node id, bounded per info_hash, least recently used out first) holds after this announce
-        [] r.kind = "announce" -> \E e \in SeqToSet(A.peers) : e[1] = r.t /\ e[2] = Len(Lookup(Step(s, r).st.peers, r.t).ps)
-        [] r.kind = "sannounce" -> \E e \in SeqToSet(A.sp) : e[1] = r.t /\ e[2] = Len(Lookup(Step(s, r).st.sp, r.t).ps)
+        \* (when the reference itself refuses the write the acknowledgement is judged by C03_OnlyValidWrites / ReplyClass)
+        [] r.kind = "announce" -> \E e \in SeqToSet(A.peers) : e[1] = r.t /\ e[2] >= 1
+                                     /\ (Has(Step(s, r).st.peers, r.t) => e[2] = Len(Lookup(Step(s, r).st.peers, r.t).ps))
+        [] r.kind = "sannounce" -> \E e \in SeqToSet(A.sp) : e[1] = r.t /\ e[2] >= 1
+                                     /\ (Has(Step(s, r).st.sp, r.t) => e[2] = Len(Lookup(Step(s, r).st.sp, r.t).ps))
         [] OTHER -> TRUE
 
 \* "stores (and later serves)": what a getpeers / getspeers answer serves is exactly what the acknowledged announces recorded -
